@@ -28,7 +28,7 @@ func hAlias() {
 	if reuse {
 		maxc := 0
 		for i := 0; i < nCalls; i++ {
-			n := vpParam(3+3*i+1) & 15
+			n := vpParam(3+3*i+1)&15 + (vpParam(3+3*i+1)>>4)&63
 			if kind == 15 {
 				n = len(collUniverse[vpParam(3+3*i+1)&15])
 			}
@@ -46,7 +46,7 @@ func hAlias() {
 		if kind == 15 {
 			content = []byte(collString(ce.define(spec)))
 		} else {
-			content = vpBytes(spec & 15)
+			content = alphaKeyBytes(spec) // a concrete stem of (spec>>4)&63 bytes followed by spec&15 symbolic bytes
 		}
 		n := len(content)
 		var buf []byte
